@@ -4,10 +4,7 @@ From Coq Require Import List ZArith Bool Arith Lia Permutation Ring.
 Import ListNotations.
 From QV Require Import Model.C19 Proofs.C19.
 
-(* the list re-ordered by pi: position j of the new list is position pi[j]
-   of the old one *)
-Definition permute {A} (d : A) (pi : list nat) (l : list A) : list A :=
-  map (fun j => nth j l d) pi.
+(* permute (Model/C19.v): position j of the new list is position pi[j] of the old one *)
 
 Lemma map_nth_seq {A} (d : A) (l : list A) :
   map (fun j => nth j l d) (seq 0 (length l)) = l.
@@ -134,3 +131,119 @@ Proof.
   rewrite map_nth_seq in PM. exact PM.
 Qed.
 End Ring.
+
+(* ---------------------------------------- part 4b: the generator blocks *)
+Lemma perm_NoDup pi len : Permutation pi (seq 0 len) -> NoDup pi.
+Proof. intros P. eapply Permutation_NoDup; [apply Permutation_sym; exact P|apply seq_NoDup]. Qed.
+
+Lemma permute_length {A} (d : A) pi l : length (permute d pi l) = length pi.
+Proof. unfold permute. apply map_length. Qed.
+
+Lemma permute_set_at pi (n : label) j x :
+  NoDup pi -> j < length pi -> (forall i, In i pi -> i < length n) ->
+  permute 0 pi (set_at n (nth j pi 0) x) = set_at (permute 0 pi n) j x.
+Proof.
+  intros ND Hj Hr.
+  assert (Hpj : nth j pi 0 < length n) by (apply Hr, nth_In; assumption).
+  apply (nth_ext _ _ 0 0).
+  - rewrite length_set_at by (rewrite permute_length; assumption).
+    now rewrite !permute_length.
+  - intros i Hi. rewrite permute_length in Hi.
+    rewrite nth_permute by assumption.
+    rewrite !nth_set_at by (try rewrite permute_length; assumption).
+    rewrite nth_permute by assumption.
+    destruct (Nat.eq_dec i j) as [->|Hne].
+    + now rewrite !Nat.eqb_refl.
+    + replace (i =? j) with false by (symmetry; now apply Nat.eqb_neq).
+      replace (nth i pi 0 =? nth j pi 0) with false; [reflexivity|].
+      symmetry. apply Nat.eqb_neq. intros E. apply Hne.
+      apply (proj1 (NoDup_nth pi 0) ND); assumption.
+Qed.
+
+Lemma next_permute dims D pi (n : label) j :
+  Permutation pi (seq 0 (length dims)) -> length n = length dims -> j < length dims ->
+  ados_next (permute 0 pi dims) D (permute 0 pi n) j =
+  option_map (permute 0 pi) (ados_next dims D n (nth j pi 0)).
+Proof.
+  intros P Hl Hj.
+  assert (Hlp : length pi = length dims) by (rewrite (Permutation_length P); apply seq_length).
+  assert (Hr : forall i, In i pi -> i < length n).
+  { intros i Hi. rewrite Hl. assert (In i (seq 0 (length dims))) by (eapply Permutation_in; eassumption).
+    apply in_seq in H. lia. }
+  unfold ados_next. rewrite !nth_permute by lia.
+  rewrite lsum_permute by (now rewrite Hl).
+  destruct (nth (nth j pi 0) dims 0 - 1 <=? nth (nth j pi 0) n 0); [reflexivity|].
+  destruct (D <=? lsum n); [reflexivity|]. simpl. f_equal. symmetry.
+  apply permute_set_at; [eapply perm_NoDup; eassumption|lia|assumption].
+Qed.
+
+Lemma prev_permute len pi (n : label) j :
+  Permutation pi (seq 0 len) -> length n = len -> j < len ->
+  ados_prev (permute 0 pi n) j = option_map (permute 0 pi) (ados_prev n (nth j pi 0)).
+Proof.
+  intros P Hl Hj.
+  assert (Hlp : length pi = len) by (rewrite (Permutation_length P); apply seq_length).
+  assert (Hr : forall i, In i pi -> i < length n).
+  { intros i Hi. rewrite Hl. assert (In i (seq 0 len)) by (eapply Permutation_in; eassumption).
+    apply in_seq in H. lia. }
+  unfold ados_prev. rewrite !nth_permute by lia.
+  destruct (nth (nth j pi 0) n 0 <=? 0); [reflexivity|]. simpl. f_equal. symmetry.
+  apply permute_set_at; [eapply perm_NoDup; eassumption|lia|assumption].
+Qed.
+
+Section Coefs.
+Variable C : Type.
+Variables (c0 c1 : C) (cadd cmul : C -> C -> C) (cneg : C -> C) (ci : C) (cconj : C -> C).
+Notation bexp := (bexp C).
+Notation nthe := (nthe C c0).
+Notation dflt := (dflt C c0).
+
+Lemma nthe_permute pi (exps : list bexp) j :
+  j < length pi -> nthe (permute dflt pi exps) j = nthe exps (nth j pi 0).
+Proof.
+  intros Hj. unfold Model.C19.nthe, permute.
+  rewrite (nth_indep _ dflt ((fun i => nth i exps dflt) 0)) by (rewrite map_length; assumption).
+  exact (map_nth (fun i => nth i exps dflt) pi 0 j).
+Qed.
+
+Lemma heom_dims_permute pi (exps : list bexp) D :
+  (forall i, In i pi -> i < length exps) ->
+  heom_dims C (permute dflt pi exps) D = permute 0 pi (heom_dims C exps D).
+Proof.
+  intros Hr. unfold heom_dims, ados_dims, permute. rewrite !map_map.
+  apply map_ext_in. intros i Hi. specialize (Hr i Hi).
+  rewrite (nth_indep _ 0 ((fun e => ados_dim D (e_dim C e)) dflt)) by (rewrite map_length; assumption).
+  symmetry. exact (map_nth (fun e => ados_dim D (e_dim C e)) exps dflt i).
+Qed.
+
+Lemma nthe_bos (exps : list bexp) j :
+  Forall (fun e => fermionic (e_type C e) = false) exps ->
+  fermionic (e_type C (nthe exps j)) = false.
+Proof.
+  intros H. unfold Model.C19.nthe. revert j. induction H as [|e l He Hl IH]; intros [|j]; simpl; auto.
+Qed.
+
+Lemma grad_next_permute pi (exps : list bexp) n n' j odd :
+  Forall (fun e => fermionic (e_type C e) = false) exps -> j < length pi ->
+  grad_next C c0 c1 cmul cneg ci exps n (nth j pi 0) odd =
+  option_map (ren (fun i => nth i pi 0))
+             (grad_next C c0 c1 cmul cneg ci (permute dflt pi exps) n' j odd).
+Proof.
+  intros Hb Hj. unfold grad_next. rewrite nthe_permute by assumption.
+  rewrite (nthe_bos exps _ Hb). reflexivity.
+Qed.
+
+Lemma grad_prev_permute pi (exps : list bexp) (n : label) j odd :
+  Forall (fun e => fermionic (e_type C e) = false) exps -> j < length pi ->
+  grad_prev C c0 c1 cadd cmul cneg ci cconj exps n (nth j pi 0) odd =
+  option_map (ren (fun i => nth i pi 0))
+             (grad_prev C c0 c1 cadd cmul cneg ci cconj (permute dflt pi exps)
+                        (permute 0 pi n) j odd).
+Proof.
+  intros Hb Hj. unfold grad_prev. rewrite nthe_permute by assumption.
+  rewrite (nthe_bos exps _ Hb). unfold grad_prev_bosonic.
+  rewrite nthe_permute by assumption. rewrite nth_permute by assumption.
+  destruct (e_type C (nthe exps (nth j pi 0))); try reflexivity.
+  destruct (e_ck2 C (nthe exps (nth j pi 0))); reflexivity.
+Qed.
+End Coefs.
